@@ -348,4 +348,55 @@ theorem lrun_embed (L : Lazy) (prog : Gid → List Step) (sched : List Gid) (st 
     rw [lstepOf_embed]
     exact ih _
 
+/-! ### program counters after a schedule (as in Proofs/Interference.lean) -/
+
+theorem lpc_step (L : Lazy) (prog : Gid → List LStep) (st : State) (g g' : Gid) (h : st.pc g' ≤ (prog g').length) :
+    (lstepOf L prog st g).pc g' = (if g = g' then min (st.pc g' + 1) (prog g').length else st.pc g') ∧
+    (lstepOf L prog st g).pc g' ≤ (prog g').length := by
+  unfold lstepOf
+  cases hs : (prog g)[st.pc g]? with
+  | none =>
+    have hlen : (prog g).length ≤ st.pc g := by
+      rcases Nat.lt_or_ge (st.pc g) (prog g).length with hlt | hge
+      · rw [List.getElem?_eq_getElem hlt] at hs; cases hs
+      · exact hge
+    by_cases e : g = g'
+    · subst e
+      simp only [if_true]
+      exact ⟨by omega, h⟩
+    · simp only [e, if_false]
+      exact ⟨trivial, h⟩
+  | some s =>
+    have hlt : st.pc g < (prog g).length := by
+      rcases Nat.lt_or_ge (st.pc g) (prog g).length with hlt | hge
+      · exact hlt
+      · rw [List.getElem?_eq_none hge] at hs; cases hs
+    by_cases e : g = g'
+    · subst e
+      simp only [upd_same, if_true]
+      exact ⟨by omega, by omega⟩
+    · have e' : g' ≠ g := fun h => e h.symm
+      simp only [upd_other _ _ _ _ e', e, if_false]
+      exact ⟨trivial, h⟩
+
+theorem lpc_run (L : Lazy) (prog : Gid → List LStep) (sched : List Gid) (st : State)
+    (h : ∀ g, st.pc g ≤ (prog g).length) (g : Gid) :
+    (lrun L prog sched st).pc g = min (st.pc g + countG g sched) (prog g).length := by
+  induction sched generalizing st with
+  | nil => simp [lrun, countG]; exact (Nat.min_eq_left (h g)).symm
+  | cons x rest ih =>
+    simp only [lrun, List.foldl_cons]
+    have hb : ∀ g', (lstepOf L prog st x).pc g' ≤ (prog g').length := fun g' => (lpc_step L prog st x g' (h g')).2
+    have := ih (lstepOf L prog st x) hb
+    simp only [lrun] at this
+    rw [this, (lpc_step L prog st x g (h g)).1]
+    have hg := h g
+    by_cases e : x = g
+    · subst e
+      simp only [if_true, countG, List.filter_cons, beq_self_eq_true, List.length_cons]
+      omega
+    · have : (x == g) = false := by simpa using e
+      simp only [e, if_false, countG, List.filter_cons, this]
+      simp
+
 end Gzx.LazyInit
